@@ -136,12 +136,56 @@ def readiness(s1: int, s2: int, victim: int, action: int) -> bool:
     return hx.holds(inputs, True, (obs,), "")
 
 
+def takeover(s1: int, s2: int, action: int, which: bool) -> bool:
+    """
+    pre: 1 <= s1 <= 2 and 1 <= s2 <= 3 and 0 <= action <= 1
+    post: _
+    """
+    hx.begin()
+    st = [PSTATES[hx.concretize_range(s1, 1, 3)], PSTATES[hx.concretize_range(s2, 1, 4)]]
+    act = ACTIONS[hx.concretize_range(action, 0, 2)]
+    inputs = (s1, s2, action, which)
+    try:
+        b = B.Bench(n_peers=1, apps=((4, "auth"),))
+        n, app, p = b.node, b.apps[0], b.peers[0]
+        conns = []
+        for i in (0, 1):
+            c, s = b.accept("10.0.1.1")
+            b.inject(c, B.cer(B.PEER_HOSTS[0], hbh=10 + i, e2e=10 + i))
+            B.drain(c)
+            conns.append(c)
+        for i in (0, 1):
+            if st[i] == "waiting_dwa":
+                n.send_dwr(conns[i])
+                B.drain(conns[i])
+            elif st[i] == "disconnecting":
+                b.inject(conns[i], B.dpr(B.PEER_HOSTS[0], 20 + i, 20 + i))
+                B.drain(conns[i])
+        v = 1 if which else 0
+        c = conns[v]
+        other = conns[1 - v]
+        if act == "gone":
+            n.peer_sockets.get(c.ident).inq.append(b"")
+            WORLD.settle(n)
+        else:
+            n.close_connection_socket(c, B.DISCONNECT_REASON_UNKNOWN)
+        other_ready = other.state in B.PEER_READY_STATES and other.ident in n.connections
+        obs = (p.connection is other, app.is_ready.is_set())
+    except Exception as e:
+        return hx.fail(inputs, "raised %s: %s" % (type(e).__name__, str(e)[:80]))
+    if other_ready:
+        return hx.check(inputs, obs, (True, True), "a ready connection of the peer is still open but peer.connection does not reference it / the application is not ready")
+    return hx.holds(inputs, p.connection is None or p.connection is other, obs, "peer.connection references a connection that has ended")
+
+
 def specs(tier, seed, carve):
     import random
     q = tier == "quick"
     rnd = random.Random(seed)
     out = [dict(id="readiness", fn="readiness", params={}, timeout=600,
                 bound="2 peers configured for one application, each in {no connection, ready, awaiting DWA, disconnecting, pre-CE}; then one of them loses its connection (peer gone / node-initiated close / nothing)")]
+    out.append(dict(id="takeover", fn="takeover", params={}, timeout=600,
+                    bound="one peer with two established connections, each READY or awaiting a DWA (the second also disconnecting); either of them is lost (peer gone / node close)"))
     ne = len(H.EVENTS)
     for init in ("fresh", "ready_inbound", "ready_outbound"):
         out.append(dict(id="history/%s/d2" % init, fn="history", params={"init": init, "depth": 2, "prefix": []}, timeout=600,
